@@ -79,6 +79,7 @@ func (r *Run) walk(ops []Op) {
 		x.hist = []string{}
 	}
 	r.Vis.OnState(x, s)
+	r.flush()
 }
 
 func labels(ops []Op) []string {
